@@ -125,9 +125,9 @@ func Parse(l, v string) (Time, error) { return time.Parse(l, v) }
 func ParseInLocation(l, v string, loc *Location) (Time, error) {
 	return time.ParseInLocation(l, v, loc)
 }
-func ParseDuration(s string) (Duration, error)         { return time.ParseDuration(s) }
-func FixedZone(name string, offset int) *Location      { return time.FixedZone(name, offset) }
-func LoadLocation(name string) (*Location, error)      { return time.LoadLocation(name) }
+func ParseDuration(s string) (Duration, error)    { return time.ParseDuration(s) }
+func FixedZone(name string, offset int) *Location { return time.FixedZone(name, offset) }
+func LoadLocation(name string) (*Location, error) { return time.LoadLocation(name) }
 func Date(y int, m Month, d, h, mi, s, ns int, l *Location) Time {
 	return time.Date(y, m, d, h, mi, s, ns, l)
 }
